@@ -5,4 +5,5 @@ cd /verif || exit 2
 mkdir -p _build/bin
 [ -x _build/bin/translator ] || (cd translator && go build -o ../_build/bin/translator .) || { echo "INFRASTRUCTURE: translator build failed"; exit 2; }
 (cd harness && cp /repo/go.sum . 2>/dev/null; go build -tags verif -o ../_build/bin/check .) || { echo "INFRASTRUCTURE: harness does not build against /repo"; exit 2; }
+case "$1" in C07|C08) (cd harness && go build -race -tags verif -o ../_build/bin/check_race .) || { echo "INFRASTRUCTURE: race-enabled harness does not build"; exit 2; };; esac
 exec _build/bin/check "$@"
